@@ -606,8 +606,9 @@ theorem genKeys_installs_rel_legacy (H : Crypto.Prims) (P : Prims) (L : SealLaws
   refine ⟨d, ?_, hR⟩
   have hvs : (some v = some Session.Ver.tls13) = False := by simp [hv]
   have hvd : decide (v = Session.Ver.tls13) = false := by simp [hv]
+  have h01 : ((0 : UInt8) = 1) = False := by decide
   simp only [Pipeline.genKeys, hsl, if_true, hres, hargs, hvs, if_false, hfound, hvd, hsec, hgen,
-    Pipeline.keysOfInstalled, hd, ne_eq, not_true_eq_false]
+    Pipeline.keysOfInstalled, hd, h01]
 
 /-- C, second half (TLS 1.3, all four traffic secrets in the key log): `generate_keys` installs a decryptor in the
     handshake epoch, related to the RFC sender that holds the same handshake and application traffic keys / IVs — so
@@ -637,8 +638,9 @@ theorem genKeys_installs_rel_13 (H : Crypto.Prims) (P : Prims) (kl : List Keylog
   rw [hb] at hd
   refine ⟨d, ?_, hR⟩
   obtain ⟨k1, k2, k3, k4, k5, k6, k7, k8⟩ := hk
+  have h01 : ((0 : UInt8) = 1) = False := by decide
   simp only [Pipeline.genKeys, hsl, if_true, hres, hargs, hfound, decide_true, hsec, Pipeline.ksVersion, hgen,
-    Pipeline.keysOfInstalled, Pipeline.rlVersion, k1, k2, k3, k4, k5, k6, k7, k8, hd, ne_eq, not_true_eq_false,
+    Pipeline.keysOfInstalled, Pipeline.rlVersion, k1, k2, k3, k4, k5, k6, k7, k8, hd, h01,
     if_false]
 
 end TLX.Props.C01Pipeline
